@@ -60,6 +60,21 @@ LIST_VALUES = {
     "paths": {"fv1": ["f_b", "sub/f_a", "../f_c"], "fv2": ["g_b", "g_a"], "cv1": ["c1_p"], "cv2": ["c2_b", "c2_a"]},
     "tags": {"fv1": ["@f_b", "@f_a", "@f_c"], "fv2": ["@g_b", "@g_a"], "cv1": ["@c1"], "cv2": ["@c2_b", "@c2_a"]},
 }
+# which attribute each documented flag sets (docs/behave.rst); a flag unknown here is taken from the table itself
+DOCUMENTED_FLAGS = {
+    "color": "-C --no-color --color", "dry_run": "-d --dry-run", "exclude_re": "-e --exclude", "include_re": "-i --include",
+    "junit": "--no-junit --junit", "junit_directory": "--junit-directory", "jobs": "-j --jobs --parallel", "format": "-f --format",
+    "steps_catalog": "--steps-catalog", "show_skipped": "--no-skipped --show-skipped", "show_snippets": "--no-snippets --snippets",
+    "show_multiline": "--no-multiline --multiline", "name": "-n --name", "stdout_capture": "--no-capture --capture",
+    "stderr_capture": "--no-capture-stderr --capture-stderr", "log_capture": "--no-logcapture --logcapture",
+    "logging_level": "--logging-level", "logging_format": "--logging-format", "logging_datefmt": "--logging-datefmt",
+    "logging_filter": "--logging-filter", "logging_clear_handlers": "--logging-clear-handlers", "summary": "--no-summary --summary",
+    "outfiles": "-o --outfile", "quiet": "-q --quiet", "runner": "-r --runner", "show_source": "--no-source --show-source",
+    "stage": "--stage", "stop": "--stop", "tags": "-t --tags", "show_timings": "-T --no-timings --show-timings",
+    "verbose": "-v --verbose", "wip": "-w --wip", "lang": "--lang",
+}
+FLAG_DEST = {flag: dest for dest, flags in DOCUMENTED_FLAGS.items() for flag in flags.split()}
+PATHISH = ("junit_directory",)      # a directory name that is NOT among the statement's "paths and output files": basename only
 PATHY = ("paths", "outfiles")          # file values are joined to the file's directory: projected to the basename
 # mode switches and the values they are documented to force (help texts of --junit, --wip, --quiet, --steps-catalog)
 MODES = {
@@ -149,16 +164,31 @@ def build_options(chk):
     by_dest = {}
     for fixed, kw in C.OPTIONS:
         dest = kw.get("dest") or C.derive_dest_from_long_option(fixed)
+        documented = [FLAG_DEST[f] for f in fixed if f in FLAG_DEST]
+        if documented and documented[0] != dest:
+            chk.note("flag %s is documented to set %s, the table says %s: judged as documented" % (fixed[-1], documented[0], dest))
+            dest = documented[0]
         by_dest.setdefault(dest, []).append((tuple(fixed), dict(kw)))
     opts = []
-    for cfo in C.configfile_options_iter(None):
-        o = Opt(cfo.dest)
-        entries = by_dest[cfo.dest]
+    names = [cfo.dest for cfo in C.configfile_options_iter(None)]
+    for dest in DOC_DEFAULTS:          # a documented configuration parameter stays under test even if the schema lost it
+        if dest not in names:
+            chk.note("documented configuration parameter %s is not in behave's config-file schema any more" % dest)
+            names.append(dest)
+    for dest in names:
+        o = Opt(dest)
+        entries = by_dest.get(dest)
+        if not entries:
+            if dest not in DOC_DEFAULTS:
+                chk.note("config-file option %s has no entry of its own in OPTIONS: skipped" % dest)
+                continue
+            d = DOC_DEFAULTS[dest]
+            entries = [((), {"action": "store_true" if isinstance(d, bool) else ("append" if isinstance(d, list) else "store")})]
         by_action = {}
         for fixed, kw in entries:
             by_action.setdefault(kw.get("action", "store"), []).append((fixed, kw))
         flags = lambda action: [f for fixed, _ in by_action.get(action, []) for f in fixed]
-        if "store_true" in by_action:
+        if "store_true" in by_action or "store_false" in by_action:
             # polarity comes from the spelling (--no-x and its short alias mean "false"), not from the action
             booleans = by_action.get("store_true", []) + by_action.get("store_false", [])
             negated = lambda fixed: any(w.startswith("--no-") for w in fixed)
@@ -392,7 +422,8 @@ def observe_probe(p, result, exc, get, vroot, spec):
             items = [] if (v is None or v == "") else ([v] if isinstance(v, str) else [pstr(x) for x in v])
             row["obs"] = [os.path.basename(x) for x in items] if p["pathy"] else items
         else:
-            row["obs"] = [pstr(v).lower() if p["lower"] else pstr(v)]
+            x = pstr(v).lower() if p["lower"] else pstr(v)
+            row["obs"] = [os.path.basename(x) if p["dest"] in PATHISH else x]
         if p["hasmode"]:
             row["mobs"] = bool(getattr(result, p["mode"], False))
         return row
@@ -814,7 +845,7 @@ def run(chk):
     plan = Plan(chk, opts)
     plan.single_option(layer_cases, 2 if chk.quick() else 8)
     plan.coupled(layer_cases)
-    plan.subsets(120 if chk.quick() else 1500)
+    plan.subsets(120 if chk.quick() else 4000)
     plan.couples(cases)
     plan.paths(cases)
     plan.userdata(layer_cases, 2 if chk.quick() else 8)
